@@ -23,7 +23,16 @@ theorem C10_fresh (s : G) (w : Uid) (roots sel : List Uid) (h : selOf s roots = 
     (cloneSel s w roots).1.n = s.n + sel.length + 1 ∧ (cloneSel s w roots).2.2 = s.n + sel.length ∧
     (∀ u, u < s.n → (cloneSel s w roots).1.tid u = s.tid u) ∧
     (∀ i, i < sel.length → (cloneSel s w roots).1.tid (s.n + i) = s.tid (sel.getD i 0)) := by
-  sorry
+  obtain ⟨subs, hsubs, rfl⟩ := Option.map_eq_some_iff.mp h
+  rw [cloneSel_eq s w roots subs hsubs]
+  obtain ⟨hn, ht⟩ := seqOps_n_tid s w roots (dedupFirst subs.flatten) (extend s (dedupFirst subs.flatten))
+  refine ⟨hn, rfl, ?_, ?_⟩
+  · intro u hu
+    show (seqOps id _ _).1.tid u = _
+    rw [ht]; exact extend_tid_lt s _ u hu
+  · intro i hi
+    show (seqOps id _ _).1.tid (s.n + i) = _
+    rw [ht]; exact extend_tid_clone s _ i hi
 
 /-- whatever the outcome, the state after the call satisfies the full invariant: well-formed graph, truthful owners,
     unique ids, bounded -/
@@ -62,6 +71,6 @@ theorem C10_example :
     let r := cloneSel s 6 [0]
     r.2.1 = none ∧ cloneHierarchyB s r.1 (s.n + 3) [0, 2, 3] [0] = true ∧ cloneLinksB s r.1 6 [0, 2, 3] = true ∧
     sourceFrameB s r.1 6 = true ∧ outsideFrameB s r.1 6 = true ∧ r.1.preds 9 = [4, 10] := by
-  sorry
+  decide +kernel
 
 end Pj
